@@ -13,6 +13,7 @@ def run(tier):
     sfx = "" if quick else "_thorough"
     # complete bounded input space x three constructors x fixed read/clone/compare/drop script;
     # WellFormed and OneBufferEach are checked by TLC in every state of every script
+    lib.mc_step(c, "MC_CString", "MC_CString.cfg", workers=4, timeout=600, what="CString spec")
     j1, n1 = lib.gen_step(c, "Gen_CString", "Gen_CString_inputs%s.cfg" % sfx, "gen_cstr_inputs")
     b1, s1 = lib.replay_step(c, rt, ["cstr"], j1, parts=4, what="ReprCString diverges from the specification")
     # all operation sequences over representative inputs
